@@ -105,14 +105,20 @@ def _l2_read(n: int, s0: int, l0: int, s1: int, l1: int, st0: int, st1: int, r: 
 POOL = [0, 3, 5, 8, 10]
 
 
-def _history(fc_feats, phases, queries, explicit_sort):
+def _history(fc_feats, phases, queries, explicit_sort, early_query=False, other_first=False):
     """add / (sort) / query, phase by phase, with the real memo; returns False on the first stale answer"""
     F.FeatureContainer.findFeaturesAt.cache_clear()
     fc = F.FeatureContainer()
     feats = []
+    if early_query:     # the contig is asked about before it has any feature
+        for q in queries:
+            if fc.findFeaturesAt('chr1', pick(POOL, q)) != []:
+                return False
     for i, (a, b) in enumerate(phases):
         f = (pick(POOL, a), pick(POOL, b), 'f%d' % i, '+', None)
         feats.append(f)
+        if other_first:  # a batch of additions that starts on another contig
+            fc.addFeature('chr2', 1, 2, 'g%d' % i, strand='+', data=None)
         fc.addFeature('chr1', f[0], f[1], f[2], strand='+', data=None)
         if explicit_sort:
             fc.sort()
@@ -128,13 +134,13 @@ def _history(fc_feats, phases, queries, explicit_sort):
     return True
 
 
-def _l3_history2(a0: int, b0: int, a1: int, b1: int, q0: int, q1: int, explicit_sort: bool) -> bool:
+def _l3_history2(a0: int, b0: int, a1: int, b1: int, q0: int, q1: int, explicit_sort: bool, early_query: bool, other_first: bool) -> bool:
     """
     pre: 0 <= a0 <= b0 <= 3 and 0 <= a1 <= b1 <= 3
     pre: 0 <= q0 <= 3 and 0 <= q1 <= 3
     post: _
     """
-    return _history(None, [(a0, b0), (a1, b1)], (q0, q1), explicit_sort)
+    return _history(None, [(a0, b0), (a1, b1)], (q0, q1), explicit_sort, early_query, other_first)
 
 
 def _l3_history(a0: int, b0: int, a1: int, b1: int, a2: int, b2: int, q0: int, q1: int, explicit_sort: bool) -> bool:
@@ -164,7 +170,7 @@ LEMMAS = [
          cases={'quick': [dict(id='m%d_g0' % m, pre=['n == 2', 'method == %d' % m, 'gap == 0', 'qs == 2', 'st0 == 0', 'st1 == 1']) for m in (0, 1)] +
                          [dict(id='m%d_g%d_b%d' % (m, g, b), pre=['n == 2', 'method == %d' % m, 'gap == %d' % g, 'b1 == %d' % b, 'b2 == 1', 'qs == 2', 'st0 == 0', 'st1 == 1', 's0 <= s1']) for m in (0, 1) for g in (1, 2) for b in (1, 2)]}),
     dict(name='L3_history2_real_cache', fn='_l3_history2', engine='E1', timeout=_T, replay='replay.C16:replay', real_lru_cache=True,
-         cases={'quick': [dict(id='a0_%d_%s' % (a, 'sort' if es else 'auto'), pre=['a0 == %d' % a, 'explicit_sort == %s' % es]) for a in range(4) for es in (True, False)]}),
+         cases={'quick': [dict(id='a0_%d_%s_%s' % (a, 'sort' if es else 'auto', 'early' if eq else 'late'), pre=['a0 == %d' % a, 'explicit_sort == %s' % es, 'early_query == %s' % eq, 'other_first == early_query']) for a in range(4) for es in (True, False) for eq in (True, False)]}),
     dict(name='L3_history3_real_cache', fn='_l3_history', engine='E1', timeout=_T, replay='replay.C16:replay', real_lru_cache=True, tiers=['thorough'],
          cases={'thorough': [dict(id='a0_%d_b0_%d_q%d_%s' % (a, b_, q, 'sort' if es else 'auto'), pre=['a0 == %d' % a, 'b0 == %d' % b_, 'q0 == %d' % q, 'explicit_sort == %s' % es])
                              for a in range(5) for b_ in range(a, 5) for q in range(5) for es in (True, False)]}),
